@@ -245,6 +245,13 @@ func (c10) Generate(rng *rand.Rand, tier string, st *Stats) []Case {
 	mk("corpus-ack-on-dead-connection", [][]string{{"sendraw", hx("<x/>")}, {"sendraw", hx("<y/>")}, {"sendraw", hx("<z/>")}, {"ackfail", "1"},
 		{"sendraw", hx("<w/>")}, {"ack", "2"}, c10op("message", "after"), {"ackfail", "0"}, {"ack", "9"}})
 	mk("corpus-ack-on-dead-connection-all", [][]string{{"sendraw", hx("<x/>")}, {"ackfail", "0"}, {"ackfail", "1"}, {"sendraw", hx("<y/>")}, {"ack", "1"}})
+	// the same text sent twice in a row (a chat-state notification, a presence, a white space ping): two stanzas, both held,
+	// both numbered - also when the first copy is still the last element of the queue
+	{
+		cs := "<message to='a@b'><composing xmlns='http://jabber.org/protocol/chatstates'/></message>"
+		mk("corpus-identical-stanzas", [][]string{{"sendraw", hx(cs)}, {"sendraw", hx(cs)}, c10op("message", "body"), {"ack", "1"}, {"sendraw", hx(cs)}, {"sendraw", hx(cs)}, {"ack", "3"}, {"ack", "5"}})
+		mk("corpus-identical-stanzas-2", [][]string{c10op("presence", "p"), c10op("presence", "p"), c10op("presence", "p"), {"ack", "2"}, {"ack", "3"}})
+	}
 	// bounded-exhaustive: all histories of length <= L over a small alphabet
 	uniq := 0
 	alpha := []func() []string{
